@@ -6,16 +6,17 @@ import LenaModel.Model.C02
       the pipeline `Sequence(*stages).run(source)` over the instrumented input 0..N-1 (`n` null: the
       infinite input 0,1,2,…), a consumer that takes at most K results
       -> {"built":clock after building, "r":[[d,{ctx},clock]..], "end":"stopped"|"exhausted"|"fuel"|"error:IndexError",
-          "clock":clock at the end}
-  {"op":"spec","stages":[S..],"n":N}   the specification side (`seqSpec` on `SF.ofList`)
-      -> {"r":[[d,{ctx},stamp]..],"cf":clock}
+          "clock":clock at the end, "wf":every stage satisfies `Stage.wfb`, "cap":`seqCap`|null}
+  {"op":"spec","stages":[S..],"n":N,"fuel":F}   the specification side (`seqSpec` on `SF.ofList` of the first N values)
+      -> {"r":[[d,{ctx},stamp]..],"cf":clock,"fuelok":`seqFuelOKb` for F}
   {"op":"den","stages":[S..],"n":N}    list semantics (`seqDen`)
       -> {"r":[[d,{ctx}]..]}
 
   S = {"t":"map","f":F} | {"t":"filter","p":P} | {"t":"slice","start":i|null,"stop":i|null,"step":i|null}
     | {"t":"count","name":s,"c0":i} | {"t":"runif","p":P,"inner":[S..]}
     | {"t":"split","bufsize":n|null,"copy":bool,"branches":[B..]}
-  B = {"k":"seq","stages":[S..]} | {"k":"fc","pre":[E..],"name":s,"c0":i,"post":[S..]}
+  B = {"k":"seq","stages":[S..]} | {"k":"fc","pre":[E..],"name":s,"c0":i,"post":[S..]} | {"k":"src","m":n,"base":i}
+      (the stages of a branch: map, filter, slice, runif — a Count only inside a runif)
   E = {"t":"map","f":F} | {"t":"filter","p":P} | {"t":"slice",..non-negative..} | {"t":"count","name":s,"c0":i}
   F = ["add",b] | ["mul",a] | ["id"];  P = ["mod",m,r] | ["lt",c] | ["ge",c] | ["all"] | ["none"] -/
 open Lean Lena.Drv Lena.C02
@@ -167,14 +168,24 @@ partial def stages? (j : Json) : Option (List (Stage V)) := (arr? j).bind (fun a
 partial def branch? (j : Json) : Option (Lena.C03.Branch BrSt V) :=
   match str? (getD j "k") with
   | some "seq" =>
-    (stages? (getD j "stages")).map (fun st =>
-      { id := 0, kind := .sequence, ops := seqOps (seqDen st), st := { pre := [], count := 0, ctx := [] } })
+    (iEls? (getD j "stages")).map (fun els =>
+      { id := 0, kind := .sequence, ops := seqOps (fun cnts buf => iRun els cnts buf),
+        st := { pre := [], count := 0, ctx := [], cnts := iInit (getD j "stages") } })
   | some "fc" =>
     match (arr? (getD j "pre")).bind (fun a => a.toList.mapM preEl?), str? (getD j "name"), int? (getD j "c0"),
-        stages? (getD j "post") with
+        iEls? (getD j "post") with
     | some pre, some name, some c0, some post =>
-      some { id := 0, kind := .fillCompute, ops := fcOps name (seqDen post), st := { pre := pre, count := c0, ctx := [] } }
+      some { id := 0, kind := .fillCompute,
+             ops := fcOps name (fun vs => (iRun post (iInit (getD j "post")) vs).1),
+             st := { pre := pre, count := c0, ctx := [] } }
     | _, _, _, _ => none
+  | some "src" =>
+    match nat? (getD j "m"), int? (getD j "base") with
+    | some m, some base =>
+      some { id := 0, kind := .source,
+             ops := srcOps ((List.range m).map (fun (i : Nat) => { d := base + (i : Int), ctx := [] })),
+             st := { pre := [], count := 0, ctx := [] } }
+    | _, _ => none
   | _ => none
 end
 
@@ -203,14 +214,17 @@ def handle (j : Json) : Json :=
       | some src =>
         let p := seqRun stages src
         let r := p.take fu k
-        Json.mkObj [("built", ofNat p.now), ("r", ofList vcJson r.1), ("end", endJson r.2.1), ("clock", ofNat r.2.2)]
+        Json.mkObj [("built", ofNat p.now), ("r", ofList vcJson r.1), ("end", endJson r.2.1), ("clock", ofNat r.2.2),
+          ("wf", Json.bool (stages.all Stage.wfb)), ("cap", ofOpt ofNat (seqCap stages))]
       | none => err "bad n"
     | _, _ => err "bad run args"
   | some "spec", some stages =>
     match nat? (getD j "n") with
     | some n =>
       let sf := seqSpec stages (SF.ofList (srcVals n))
-      Json.mkObj [("r", ofList vcJson sf.vals), ("cf", ofNat sf.cf)]
+      let fu := (nat? (getD j "fuel")).getD 0
+      Json.mkObj [("r", ofList vcJson sf.vals), ("cf", ofNat sf.cf),
+        ("fuelok", Json.bool (seqFuelOKb stages (SF.ofList (srcVals n)) fu))]
     | none => err "bad n"
   | some "den", some stages =>
     match nat? (getD j "n") with
